@@ -1,4 +1,5 @@
 import HexProofs.Numeric.Simple
+import HexProofs.Numeric.SeriesInputsRSI
 import HexProofs.Numeric.Channel
 import HexProofs.Numeric.Bars
 import HexProofs.Numeric.Rsi
@@ -995,7 +996,11 @@ already hold other indicators' readings (but nothing under `nm` / `nm_data`).  T
 never raises, keeps the length, and the own reading of candle `j` is `None` for `j < t0 + p` and
 afterwards follows the textbook RSI series of the input VALUES `x` (within `ε_n`, in `[0, 100]`:
 `RsiOwnOK`) – i.e. the result depends on the input values only, not on where they start.
-NOT proved.  Proved instead: this statement for `t0 = 0`, raw candles and a candle-field input
+FALSE AS WRITTEN (`C06_chained_FULL_false`: a bool column among the first `t0` inputs counts as a reading; replayed on the library).  With
+the extra hypothesis that the input reading is `None` on the first `t0` candles it is PROVED over every candle list holding foreign
+readings: `C06_chained_partial_holds` (RSI), `C06_ROC_inputs_holds` (end of this file).  Still open in this shape: MACD, STOCH, TSI
+(managed helpers with dotted self-inputs).
+Proved earlier: this statement for `t0 = 0`, raw candles and a candle-field input
 (`rsi_series_candles` / `Numeric.rsi_series_engine`), and for arbitrary inputs and start positions
 every single call (`rsi_seed`, `rsi_step`, which address the input RELATIVE to the active index).
 Missing: the series induction over candle lists that hold foreign readings – the `TreeSpec`s and
@@ -1018,5 +1023,31 @@ def C06_chained_FULL : Prop :=
       ∀ j, j < cs.length →
         (j < t0 → readingByCandle (out.getD j default) nm = .none) ∧
         (t0 ≤ j → RsiOwnOK n (rsiSeries p x (j - t0)) (readingByCandle (out.getD j default) nm))
+
+/-- **`C06_chained_FULL` is false as written** (same defect as `C04_FULL`).  Witness:
+`RSI(period=1, input_value="positive")` over two raw candles stores `[None, 0.0]`, the statement
+(`t0 = 2`) promises `[None, None]`. -/
+theorem C06_chained_FULL_false : ¬ C06_chained_FULL := Numeric.c06_chained_full_false
+
+/-- `C06_chained_FULL` with the missing hypothesis made explicit (the first `t0` input readings are `None`) -/
+def C06_chained_partial : Prop :=
+  ∀ (K : Type) [Field K] [LinearOrder K] [IsStrictOrderedRing K] [LawfulPyF K]
+    (p : Nat) (nm input : String) (n t0 : Nat) (cs : List (Candle K)) (x : Nat → K),
+    1 ≤ p → IsKey nm → RsiNames nm → NoDot input → input ≠ nm → input ≠ nm ++ "_data" →
+    (∀ c ∈ cs, dlookup nm c.inds = none ∧ dlookup nm c.subs = none ∧
+      dlookup (nm ++ "_data") c.inds = none ∧ dlookup (nm ++ "_data") c.subs = none) →
+    (∀ j, j < cs.length → inputAt cs input j = if j < t0 then none else some (x (j - t0))) →
+    (∀ j, j < cs.length → j < t0 → readingByCandle (cs.getD j default) input = .none) →
+    ∃ out : List (Candle K), out.length = cs.length ∧
+      engineCalc (mkTop (.rsi (p : Int) input : Kind K) nm n) cs = .ok out ∧
+      ∀ j, j < cs.length →
+        (j < t0 → readingByCandle (out.getD j default) nm = .none) ∧
+        (t0 ≤ j → RsiOwnOK n (rsiSeries p x (j - t0)) (readingByCandle (out.getD j default) nm))
+
+/-- **the corrected `C06_chained_FULL` holds** (RSI) -/
+theorem C06_chained_partial_holds : C06_chained_partial := Numeric.c06_chained_partial
+
+/-- the same shape for ROC (`DirectOK (p+1) n (rocAt x p)`, inputs non-zero) -/
+theorem C06_ROC_inputs_holds : Numeric.C06RocStatement := Numeric.c06_roc
 
 end Hex.C06
